@@ -1,18 +1,20 @@
 #!/usr/bin/env python3
-"""Fold known_findings.d/*.json fragments into the single committed known_findings.json."""
+"""Fold known_findings.d/<Cxx>.json fragments into the single committed known_findings.json.
+usage: merge_known.py C06 C15 …   (only the named properties' fragments are merged and removed)"""
 import json, os, sys
 V = os.path.dirname(os.path.dirname(os.path.abspath(__file__)))
 main = os.path.join(V, "known_findings.json")
 cur = json.load(open(main)) if os.path.exists(main) else {"findings": [], "fixed": []}
 d = os.path.join(V, "known_findings.d")
-if os.path.isdir(d):
-    for f in sorted(os.listdir(d)):
-        if f.endswith(".json"):
-            j = json.load(open(os.path.join(d, f)))
-            ids = {x["id"] for x in cur["findings"]}
-            cur["findings"] += [x for x in j.get("findings", []) if x["id"] not in ids]
-            cur["fixed"] += [x for x in j.get("fixed", []) if x not in cur["fixed"]]
-            os.unlink(os.path.join(d, f))
+for pid in sys.argv[1:]:
+    f = os.path.join(d, pid + ".json")
+    if not os.path.exists(f):
+        print("no fragment for", pid)
+        continue
+    j = json.load(open(f))
+    cur["findings"] = [x for x in cur["findings"] if x["property"] != pid] + j.get("findings", [])
+    cur["fixed"] += [x for x in j.get("fixed", []) if x not in cur["fixed"]]
+    os.unlink(f)
 cur["findings"].sort(key=lambda x: (x["property"], x["id"]))
 json.dump(cur, open(main, "w"), indent=1)
 print("%d findings, %d fixed" % (len(cur["findings"]), len(cur["fixed"])))
